@@ -228,7 +228,10 @@ Fixpoint judge_air (c : cfg) (due : list expect) (air : list (list N)) (ver_sent
            end
   end.
 
-Definition arm (m : mon27) (owner : N) : mon27 := set_m_owner (set_m_timer m GenLL.default_procedure_timeout_us) owner.
+(* the procedure response timeout of the Core specification (Vol 6 Part B 5.2): 40 s - a specification constant, NOT the
+   constant read from the source (a changed default_procedure_timeout_us is then seen as early / late 0x22) *)
+Definition procedure_response_timeout_us : N := 40000000.
+Definition arm (m : mon27) (owner : N) : mon27 := set_m_owner (set_m_timer m procedure_response_timeout_us) owner.
 
 Definition own_pdu (m : mon27) : option (expect * mon27) :=
   match m_cpr m, m_phy m, m_ver m, m_acpr m with
